@@ -114,6 +114,7 @@ type fpCtx struct {
 	s     *State
 	sb    *strings.Builder
 	names map[int]int
+	terms bool // identities of unknown floats matter (Interp.Terms)
 }
 
 func (c *fpCtx) cell(id int) {
@@ -152,6 +153,11 @@ func (c *fpCtx) val(v AV) {
 			fmt.Fprintf(sb, "f%v", x.V)
 		} else {
 			fmt.Fprintf(sb, "f?%v%v", x.Opq, x.Finite)
+			if x.Term != nil {
+				sb.WriteString("{" + x.Term.String() + "}")
+			} else if c.terms && x.Sym > 0 {
+				fmt.Fprintf(sb, "#%d", x.Sym)
+			}
 			if iv, ok := c.s.fsyms[x.Sym]; ok && x.Sym > 0 {
 				fmt.Fprintf(sb, "[%v%v,%v%v]", iv.Lo, iv.LoStrict, iv.Hi, iv.HiStrict)
 			}
@@ -232,7 +238,7 @@ func (c *fpCtx) val(v AV) {
 // fingerprint of the state at the entry of block `to` of the top frame.
 func (it *Interp) fingerprint(s *State, to *ssa.BasicBlock) uint64 {
 	var sb strings.Builder
-	c := &fpCtx{s: s, sb: &sb, names: map[int]int{}}
+	c := &fpCtx{s: s, sb: &sb, names: map[int]int{}, terms: it.Terms}
 	hasOpq := false
 	for _, t := range s.trail {
 		if t.Opq || t.Der {
